@@ -10,7 +10,7 @@ if ! git apply --check "$patch" 2>/dev/null; then
 else
   git apply "$patch"
 fi
-cd /verif && timeout 3000 ./check "$prop" "$tier" > /tmp/trymut.out 2>&1; rc=$?
+rm -rf "/verif/replays/$prop"; cd /verif && timeout 3000 ./check "$prop" "$tier" > /tmp/trymut.out 2>&1; rc=$?
 git -C /repo checkout -- .
 grep -a -E "^(VIOLATION|SUMMARY|KNOWN|INCONCLUSIVE|BUILD-FAILED|BROKEN)" /tmp/trymut.out | cut -c1-300 | head -12
 grep -a -A2 "^VIOLATION" /tmp/trymut.out | grep -a -v "^VIOLATION\|^--" | cut -c1-300 | head -8
